@@ -296,7 +296,11 @@ class LibMixin:
         if self.config is not None and yield_hook is None:
             summ = self.config.summary_for(full)
             if summ is not None:
-                return summ(self, st, ([self_val] if self_val is not None else []) + list(args), kwargs)
+                # a summary may decline (return None): the real body is executed (used when the
+                # contract's target calls itself: the top-level call runs, nested calls are summarised)
+                r_ = summ(self, st, ([self_val] if self_val is not None else []) + list(args), kwargs)
+                if r_ is not None:
+                    return r_
         node = func.node
         if isinstance(node, ast.Lambda):
             locs, err = self.bind_params(st, func, args, kwargs, None)
